@@ -4,6 +4,7 @@ import (
 	"flag"
 	"fmt"
 	"os"
+	"runtime"
 	"runtime/debug"
 	"sort"
 	"strconv"
@@ -28,6 +29,16 @@ func register(d *propDef) { props[d.id] = d }
 var progStart = time.Now()
 
 func main() {
+	// The analysis is allocation-heavy and short; on oversubscribed VMs many threads only add
+	// kernel contention (measured: 16 threads 60 s vs 2 threads 8 s), so stay narrow by default.
+	procs := 2
+	if v := os.Getenv("LVCHECK_PROCS"); v != "" {
+		if n, err := strconv.Atoi(v); err == nil && n > 0 {
+			procs = n
+		}
+	}
+	runtime.GOMAXPROCS(procs)
+	debug.SetGCPercent(400)
 	repo := flag.String("repo", "/repo", "repository root")
 	verif := flag.String("verif", "/verif", "verification root (evidence, known findings, fixtures)")
 	prop := flag.String("prop", "", "property id (C01..C20) or 'all'")
@@ -54,6 +65,10 @@ func main() {
 		if err != nil {
 			fmt.Println("LOAD ERROR:", err)
 			os.Exit(2)
+		}
+		if *dump == "dropped" {
+			dumpDropped(p)
+			return
 		}
 		if strings.HasPrefix(*dump, "chanops:") {
 			dumpChanOps(p, strings.TrimPrefix(*dump, "chanops:"))
